@@ -177,7 +177,7 @@ class World(BaseWorld):
 
     # -------------------------------------------------------------------- ops
     def gen_op(self, rng):
-        kinds = [(3, 'twice'), (2, 'inputs'), (2, 'other_work'), (3, 'wrapper')]
+        kinds = [(3, 'twice'), (2, 'interleaved'), (2, 'inputs'), (2, 'other_work'), (3, 'wrapper')]
         kind = weighted(rng, kinds)
         if rng.random() < self.cfg.get('p_child', 0.3):
             kind = 'child'
@@ -237,6 +237,46 @@ class World(BaseWorld):
         if canon(g1._to_dict()) != before:
             raise Violation('C16.no_shared_nodes', 'mutating the second graph changed the first one')
         self._inputs_unchanged(model, spec_obj, 'two generations + analysis')
+        return 'ok'
+
+    def do_interleaved(self, op):
+        """Two graphs are generated from one model first, only then the attackers
+        are attached and the analysis runs - on the first graph, then the second."""
+        fmt = op['model_fmt']
+        spec_obj = copy.deepcopy(self.desc['spec'])
+        lg = self.LanguageGraph(spec_obj)
+        fac = self.LanguageClassesFactory(lg)
+        model = self.Model.load_from_file(self.files[fmt], fac)
+        a, b = call(self.AttackGraph, lg, model), call(self.AttackGraph, lg, model)
+        if a.raised or b.raised:
+            raise SetupRejected('generate:late')
+        g1, g2 = a.value, b.value
+        for g, other, label in ((g1, g2, 'first'), (g2, g1, 'second')):
+            o = call(g.attach_attackers)
+            if o.raised:
+                raise Violation('C16.same', f'attach_attackers on the {label} of two graphs raised {o.exc!r}')
+            o = call(self.apriori.calculate_viability_and_necessity, g)
+            if o.raised:
+                raise Violation('C16.same', f'analysis of the {label} of two graphs raised {o.exc!r}')
+            self.count('oracle:C16.no_shared_nodes')
+            mine = {id(n) for n in g.nodes}
+            for att in g.attackers:
+                for n in list(att.reached_attack_steps) + list(att.entry_points):
+                    if id(n) not in mine:
+                        raise Violation('C16.no_shared_nodes',
+                                        f'an attacker of the {label} graph holds node {n.full_name} '
+                                        f'of another graph built from the same model')
+            for n in other.nodes:
+                for att in n.compromised_by:
+                    if any(att is x for x in g.attackers) :
+                        raise Violation('C16.no_shared_nodes',
+                                        f'node {n.full_name} of the other graph is compromised by an '
+                                        f'attacker of the {label} graph')
+        self.executions += 2
+        self._same(graph_digest(g1), 'first of two graphs generated before attaching', fmt)
+        self._same(graph_digest(g2), 'second of two graphs generated before attaching', fmt)
+        self.count('probe:two_graphs_before_attach')
+        self._inputs_unchanged(model, spec_obj, 'two interleaved generations')
         return 'ok'
 
     def _inputs_unchanged(self, model, spec_obj, where):
